@@ -88,7 +88,7 @@ def sweep_values(nq, nt):
     return {"kind": "sweep", "profile": "values", "n_quick": nq, "n_thorough": nt, "per_shard": 500}
 
 REPLICAS = [{"TZ": "UTC", "GOMAXPROCS": "1"},
-            {"TZ": "Europe/Warsaw", "GOMAXPROCS": "8", "VERIF_QUERIES": "1", "VERIF_CRISIS_SKIP": "1"},
+            {"TZ": "Europe/Warsaw", "GOMAXPROCS": "8", "VERIF_QUERIES": "1", "VERIF_CRISIS_SKIP": "1", "VERIF_RESTART": "1"},
             {"TZ": "America/St_Johns", "GOMAXPROCS": "3", "VERIF_INV_CHECK_PERIOD": "1", "VERIF_TELEMETRY": "1"}]
 
 PROPS = {
